@@ -11,7 +11,7 @@ V_STUB_RANGE = dict(V_STUB, proved_by="C06.link_rep_* (value in 1..=7462 for eve
 V_STUB_ANY = dict(V_STUB, proved_by="C01.k1 + C01.k3 + C01.sort_lemma (any value, a function of the card set) and C03.five_identity (hand unchanged)",
                   proved_by_obs=["C01.k1", "C01.k3", "C01.sort_lemma", "C03.five_identity"])
 TOTAL_STUB = {"target": "<ckc_rs::cards::five::Five as ckc_rs::cards::HandRanker>::hand_rank_value_and_hand",
-              "with": "crate::stubs::five_vh_total", "proved_by": "C05.five_safe (returns normally, value <= 7462) and C03.five_identity",
+              "with": "crate::stubs::five_vh_total", "proved_by": "C05.five_safe (returns normally) and C03.five_identity (hand unchanged)",
               "proved_by_obs": ["C05.five_safe", "C03.five_identity"]}
 FIXED5 = {"target": "<ckc_rs::cards::five::Five as ckc_rs::cards::HandRanker>::hand_rank_value_and_hand",
           "with": "crate::stubs::five_vh_fixed", "proved_by": "none needed: the obligation is conditional on the callee returning (v, self); v is arbitrary"}
@@ -30,18 +30,18 @@ ob("C05.find_total", "-", {"C05": "P", "C01": "H", "C04": "H", "C02": "H", "C03"
 ob("C05.products_floor", "c05::products_floor", {"C05": "H", "C01": "H"},
    "forall i<4888: PRODUCTS[i] >= 48 and PRODUCTS[i-1] < PRODUCTS[i] (table of the .snip file; cross-check of the Verus table lemma)", ["lookups::PRODUCTS"])
 ob("C05.five_safe", "c05::five_safe", {"C05": "P"},
-   "forall five slots over {52 cards, blank}, any repetition/order: hand_rank_value_and_hand returns normally (no panic/overflow/out-of-bounds), value <= 7462, hand returned; search = its contract. The wrappers (hand_rank_value, hand_rank, *_validated) are total by C01.entry_points",
+   "forall five slots over {52 cards, blank}, any repetition/order: hand_rank_value_and_hand returns normally (no panic/overflow/out-of-bounds); search = its contract. The wrappers (hand_rank_value, hand_rank, *_validated) are total by C01.entry_points",
    EVAL5 + ["Five::hand_rank", "Five::hand_rank_value_validated", "Five::hand_rank_validated", "Five::is_valid"],
    unwind=9, stubs=[FIND_STUB], timeout=900, weight=3, concretise=["C05.blank_five_invalid"])
 ob("C05.blank_five_invalid", "c05::blank_five_invalid", {"C05": "P"},
    "forall five slots over {cards, blank} with at least one blank: value 0, hand_rank() is Invalid, validated forms too (search = its contract; the table fact 'no product below 48' is C05.products_floor)",
    EVAL5 + ["Five::hand_rank", "HandRank::is_invalid"], unwind=9, stubs=[FIND_STUB], timeout=900, weight=3)
 ob("C05.six_safe", "c05::six_safe", {"C05": "P"},
-   "forall six slots over {cards, blank}, any repetition: Six::hand_rank_value_and_hand returns normally, value <= 7462; five-card evaluation = its total contract (any value <= 7462, hand unchanged); wrappers total by C02.six_entry_points",
+   "forall six slots over {cards, blank}, any repetition: Six::hand_rank_value_and_hand returns normally; five-card evaluation = its total contract (any value, hand unchanged); wrappers total by C02.six_entry_points",
    ["Six::hand_rank_value_and_hand", "Six::hand_rank_value", "Six::hand_rank", "Six::hand_rank_value_validated", "Six::hand_rank_validated", "Six::five_from_permutation", "Five::sort"],
    unwind=27, stubs=[TOTAL_STUB], timeout=900, weight=3)
 ob("C05.seven_safe", "c05::seven_safe", {"C05": "P"},
-   "forall seven slots over {cards, blank}, any repetition: Seven::hand_rank_value_and_hand returns normally, value <= 7462; five-card evaluation = its total contract; wrappers total by C02.seven_entry_points",
+   "forall seven slots over {cards, blank}, any repetition: Seven::hand_rank_value_and_hand returns normally; five-card evaluation = its total contract; wrappers total by C02.seven_entry_points",
    ["Seven::hand_rank_value_and_hand", "Seven::hand_rank_value", "Seven::hand_rank", "Seven::hand_rank_value_validated", "Seven::hand_rank_validated", "Seven::five_from_permutation", "Five::sort"],
    unwind=31, stubs=[TOTAL_STUB], timeout=1200, weight=4)
 ob("C05.find_kb", "c05::find_kb", {"C05": "P"},
@@ -63,12 +63,15 @@ for g, cats in [("distinct", "straight flush / flush / straight / high card (257
 ob("C01.entry_points", "c01::entry_points", {"C01": "P", "C06": "P", "C05": "P", "C04": "P"},
    "forall five words, forall v: if hand_rank_value_and_hand returns (v, self) then hand_rank_value() == v and hand_rank() == HandRank::from(v); on five distinct real cards hand_rank_value_validated() == v and evaluate::five_cards == v; on any other words the validated forms return normally with v or 0",
    ["Five::hand_rank_value", "Five::hand_rank", "Five::hand_rank_value_validated", "evaluate::five_cards"],
-   unwind=9, stubs=[FIXED5], timeout=900, weight=2)
+   unwind=9, stubs=[FIXED5], timeout=900, weight=2,
+   clause_props={"hand_rank_value_delegates": ["C01"], "hand_rank_is_from_value": ["C01", "C06"],
+                 "validated_same_value_on_real_hands": ["C01", "C04"], "free_function_same_value_on_real_hands": ["C01", "C04"],
+                 "validated_returns_value_or_zero": ["C04"], "free_function_is_validated": ["C04"]})
 ob("C04.validated_five", "c01::validated_five", {"C04": "P"},
    "forall five words, forall v: is_valid <=> every slot a card word and no two equal; hand_rank_value_validated() and evaluate::five_cards are 0 exactly when not valid (the evaluation is not called) and otherwise the value v the evaluation returns",
    ["Five::is_valid", "Five::hand_rank_value_validated", "evaluate::five_cards"],
    unwind=9, stubs=[FIXED5], timeout=900, weight=2)
-for g in ["flush", "distinct_nonflush", "quads", "full_house", "trips", "two_pair", "pair"]:
+for g in ["flush", "distinct_nonflush", "quads", "full_house", "trips", "two_pair"] + ["pair_%d%d" % (i, j) for i in range(5) for j in range(i + 1, 5)]:
     ob("C01.direct_%s" % g, "c01::direct_%s" % g, {"C01": "P"},
        "forall five distinct cards of category group '%s' in ANY slot order and suit assignment, real code end to end, no stubs: hand_rank_value() == ordinal(sorted ranks, same suit)" % g,
        EVAL5, tier="thorough", unwind=15, timeout=3600, weight=8, concretise=["C01.direct_any"])
@@ -98,17 +101,20 @@ ob("C02.seven_min", "c02::seven_min", {"C02": "P", "C09": "P"},
 ob("C02.six_entry_points", "c02::six_entry_points", {"C02": "P", "C04": "P", "C06": "P", "C05": "P"},
    "forall six words, forall v: if Six::hand_rank_value_and_hand returns (v, hand) then hand_rank_value() == v, hand_rank() == from(v), hand_rank_value_validated() == (is_valid ? v : 0)",
    ["Six::hand_rank_value", "Six::hand_rank", "Six::hand_rank_value_validated", "Six::is_valid"],
-   unwind=12, stubs=[FIXED6], timeout=1200, weight=3)
+   unwind=12, stubs=[FIXED6], timeout=1200, weight=3,
+   clause_props={"hand_rank_value_delegates": ["C02"], "hand_rank_is_from_value": ["C02", "C06"], "validated": ["C04"], "is_valid_exact": ["C04"]})
 ob("C02.seven_entry_points", "c02::seven_entry_points", {"C02": "P", "C04": "P", "C06": "P", "C05": "P"},
    "forall seven words, forall v: if Seven::hand_rank_value_and_hand returns (v, hand) then hand_rank_value() == v, hand_rank() == from(v), hand_rank_value_validated() == (is_valid ? v : 0)",
    ["Seven::hand_rank_value", "Seven::hand_rank", "Seven::hand_rank_value_validated", "Seven::is_valid"],
-   unwind=12, stubs=[FIXED7], timeout=1500, weight=4)
+   unwind=12, stubs=[FIXED7], timeout=1500, weight=4,
+   clause_props={"hand_rank_value_delegates": ["C02"], "hand_rank_is_from_value": ["C02", "C06"], "validated": ["C04"], "is_valid_exact": ["C04"]})
 VAL5 = {"target": "<ckc_rs::cards::five::Five as ckc_rs::cards::HandRanker>::hand_rank_value_validated", "with": "crate::stubs::five_validated_fixed", "proved_by": "none needed: conditional on the callee returning v; v arbitrary"}
 VAL6 = {"target": "<ckc_rs::cards::six::Six as ckc_rs::cards::HandRanker>::hand_rank_value_validated", "with": "crate::stubs::six_validated_fixed", "proved_by": "none needed: conditional on the callee returning v; v arbitrary"}
 VAL7 = {"target": "<ckc_rs::cards::seven::Seven as ckc_rs::cards::HandRanker>::hand_rank_value_validated", "with": "crate::stubs::seven_validated_fixed", "proved_by": "none needed: conditional on the callee returning v; v arbitrary"}
 ob("C02.validated_rank", "c02::validated_rank", {"C04": "P", "C06": "P", "C05": "P"},
    "forall words, forall v: if hand_rank_value_validated returns v then hand_rank_validated() == HandRank::from(v), for Five, Six and Seven",
-   ["Five::hand_rank_validated", "Six::hand_rank_validated", "Seven::hand_rank_validated"], unwind=5, stubs=[VAL5, VAL6, VAL7], timeout=900, weight=2)
+   ["Five::hand_rank_validated", "Six::hand_rank_validated", "Seven::hand_rank_validated"], unwind=5, stubs=[VAL5, VAL6, VAL7], timeout=900, weight=2,
+   clause_props={"five": ["C04", "C06"], "six": ["C04", "C06"], "seven": ["C04", "C06"]})
 ob("C09.min_lemma", "c09::min_lemma", {"C09": "P"},
    "forall value functions V on the five-subsets of seven slots: min over the 21 subsets == min over the seven six-subsets of (min over the six subsets inside), the seven-min <= every six-min, every six-min <= every five inside it (composition of the two value contracts)",
    [], unwind=130, timeout=900, weight=2)
@@ -123,9 +129,9 @@ ob("C08.six_shift", "c08::six_shift", {"C08": "P"},
 ob("C08.seven_shift", "c08::seven_shift", {"C08": "P"},
    "forall seven distinct real cards: Seven::shift_suit().hand_rank_value() == hand_rank_value() (ghost V as above)",
    ["Seven::shift_suit", "Seven::hand_rank_value"], unwind=130, stubs=[V_STUB_ANY], timeout=2400, weight=6)
-ob("C08.five_shift_direct", "c08::five_shift_direct", {"C08": "P"},
-   "forall five distinct cards, any order: the real evaluator gives the shifted hand the same value (no stubs)",
-   EVAL5 + ["Five::shift_suit"], tier="thorough", unwind=15, timeout=3600, weight=8)
+# C08.five_shift_direct (real evaluator on a hand and on its shift, no stubs) was tried in the thorough tier:
+# no verdict within 60 min, so it is not registered; value invariance rests on five_triple + k3.
+
 
 # ------------------------------------------------------------------ native-only concretiser bodies
 ob("C02.six_rule_based", "c02::six_rule_based", {"C02": "N"},
@@ -155,4 +161,7 @@ for g, cats in [("distinct", "straight flush / flush / straight / high card"), (
     ob("C06.link_rep_%s" % g, "c06::link_rep_%s" % g, {"C06": "P", "C13": "P", "C04": "P", "C09": "H", "C02": "H"},
        "for EVERY class of %s (symbolic sorted tuple + flush flag): hand_rank() of the canonical hand, real code end to end, has a value in 1..=7462 and the category and class identifiers of the cards; is_flush / is_straight / is_straight_flush agree with the reported category" % cats,
        EVAL5 + ["Five::hand_rank", "HandRank::from", "HandRank::determine_name", "HandRank::determine_class", "Five::is_straight", "Five::is_straight_flush"],
-       unwind=15, timeout=1800, weight=4, concretise=["C06.cards_link_native"])
+       unwind=15, timeout=1800, weight=4, concretise=["C06.cards_link_native"],
+       clause_props={"value_is_a_real_rank": ["C06", "C04", "C09", "C02"], "not_invalid": ["C06", "C04"],
+                     "category_describes_cards": ["C06", "C13"], "class_describes_cards": ["C06"],
+                     "straight_flush_predicate_agrees": ["C13"], "flush_predicate_agrees": ["C13"], "straight_predicate_agrees": ["C13"]})
